@@ -495,7 +495,7 @@ func (c writeCfg) name() string {
 const sharedKey = "/r/a"
 
 func writeScenario(c writeCfg, extra func(w *world, x *mc.X, st initState, final kstate)) *mc.Scenario {
-	return &mc.Scenario{Name: c.name(), Body: func(x *mc.X) {
+	return &mc.Scenario{Name: c.name(), TolerateNondet: c.engine != hx.Mem, Body: func(x *mc.X) {
 		w := newWorld(c.engine, 16)
 		defer w.close()
 		st := w.buildInit(c.init, sharedKey)
